@@ -172,6 +172,11 @@ func (s *SnippetWriter) Append(r io.Reader) error {
 		return nil
 	}
 	_, err := io.Copy(s.w, r)
+	if err != nil {
+		// Keep the same semantic as Do(): remember the first error, so
+		// that nothing further is written and Error() reports it.
+		s.err = err
+	}
 	return err
 }
 
